@@ -47,7 +47,7 @@ def mutants():
     for pid in sorted(by):
         es = by[pid]
         det = [e for e in es if e["status"] == "DETECTED"]
-        nd = [e["id"] + (" (equivalent: cannot change the value)" if e["status"] == "EQUIVALENT" else "") for e in es if e["status"] != "DETECTED"]
+        nd = [e["id"] + (" (equivalent: cannot change the value)" if e["status"] == "EQUIVALENT" else " (outside the property: input validation only)" if e["status"] == "OUTSIDE-PROPERTY" else "") for e in es if e["status"] != "DETECTED"]
         surv = [e["id"] for e in es if "repo_suite" in e and "FAIL" not in e["repo_suite"]]
         meas = sum("repo_suite" in e for e in es)
         rows.append(f"| {pid} | {len(es)} | {len(det)} | {len(surv)} of {meas} measured: {', '.join(surv) if surv else '-'} | {', '.join(nd) if nd else '-'} |")
